@@ -91,8 +91,8 @@ def describes (g : Segment) (A : Option Assets) (t : Table) : Bool :=
   t.all (fun s => (g.specTable A).contains s) && (g.specTable A).all (fun s => t.contains s)
     && allDistinct (t.map (·.id))
 
-/-- the compiler accepts the segment: there is at least one link (`Linkage.leaves` asserts a non-empty
-set of leaves — a single stateless worker without any subscription has none) -/
+/-- there is at least one link: the region where the *unrepaired* `Linkage.leaves` (`assert children`) is guaranteed
+not to fire (fix C01-F1 removed the need for it; reported by the driver as data only) -/
 def linked (g : Segment) (A : Option Assets) : Bool :=
   !g.edges.isEmpty || g.workers.any (fun w => g.hasPreset A w)
 
